@@ -736,6 +736,104 @@ func c10FirstDiff(got []string, want string) int {
 	return -1
 }
 
+// c10AbsInputs: what a party would share if it took big.Int.Bytes() (the
+// absolute value) of a negative input instead of its bit pattern
+func c10AbsInputs(in []*big.Int) ([]*big.Int, bool) {
+	out := make([]*big.Int, len(in))
+	neg := false
+	for i, v := range in {
+		out[i] = v
+		if v.Sign() < 0 {
+			neg = true
+			out[i] = new(big.Int).Abs(v)
+		}
+	}
+	return out, neg
+}
+
+// c10PatternInputs: the non-negative integers with the same low n bits
+func c10PatternInputs(circ *circuit.Circuit, in []*big.Int) []*big.Int {
+	out := make([]*big.Int, len(in))
+	for i, v := range in {
+		n := int(circ.Inputs[i].Type.Bits)
+		w := new(big.Int)
+		for b := 0; b < n; b++ {
+			w.SetBit(w, b, v.Bit(b))
+		}
+		out[i] = w
+	}
+	return out
+}
+
+// c10NegKey: a wrong result that equals f(|x|, ...) for negative inputs x
+func c10NegKey(circ *circuit.Circuit, in []*big.Int, got []string, key string) string {
+	abs, neg := c10AbsInputs(in)
+	if !neg {
+		return key
+	}
+	w, err := circ.Compute(abs)
+	if err != nil {
+		return key
+	}
+	wa := bitsString(JoinOutputs(circ, w))
+	for _, g := range got {
+		if g != wa {
+			return key
+		}
+	}
+	return "c10:input:negative-big-int:wrong-output"
+}
+
+type c10SignedJob struct {
+	n    int
+	src  string
+	args []string // decimal inputs, parsed by IOArg.Parse
+}
+
+// c10SignedJobs: compiled programs with intN arguments and negative decimal
+// inputs, as apps/garbled -gmw -i -5 hands them to Network.Run
+func c10SignedJobs(c *Ctx, r *RNG) []c10SignedJob {
+	progs := []struct {
+		w    int
+		body string
+	}{
+		{8, "return a + b"},
+		{13, "if a < b {\n\t\treturn b - a\n\t}\n\treturn a * b"},
+		{32, "return a - b"},
+		{8, "return a * b"},
+		{13, "return (a + b) & b"},
+		{32, "if a > b {\n\t\treturn a\n\t}\n\treturn b"},
+	}
+	cnt := c.N(3, 6)
+	var jobs []c10SignedJob
+	for k := 0; k < cnt; k++ {
+		pg := progs[(k+int(c.Seed))%len(progs)]
+		n := 2 + k%2
+		params := "a, b"
+		body := pg.body
+		if n == 3 {
+			params = "a, b, c"
+			body = strings.Replace(body, "return a + b", "return a + b + c", 1)
+			body = strings.Replace(body, "return a - b", "return a - b - c", 1)
+		}
+		src := fmt.Sprintf("package main\nfunc main(%s int%d) int%d {\n\t%s\n}\n", params, pg.w, pg.w, body)
+		args := make([]string, n)
+		lim := 1 << uint(minInt(pg.w, 30)-1)
+		for p := range args {
+			v := -(1 + r.Intn(lim))
+			if k%3 == 2 && p == 1 {
+				v = r.Intn(lim) // mixed signs
+			}
+			if r.Intn(4) == 0 {
+				v = -lim // the most negative value
+			}
+			args[p] = fmt.Sprintf("%d", v)
+		}
+		jobs = append(jobs, c10SignedJob{n: n, src: src, args: args})
+	}
+	return jobs
+}
+
 // ---------------------------------------------------------------- runner
 
 func runC10(c *Ctx) error {
@@ -748,10 +846,14 @@ func runC10(c *Ctx) error {
 	nconf := c.N(12, 110) // two networks per configuration
 	timeout := 40 * time.Second
 	directed := c10DirectedJobs(c, c.rng.Fork())
-	for i := 0; i < nconf+len(directed); i++ {
+	signed := c10SignedJobs(c, c.rng.Fork())
+	for i := 0; i < nconf+len(directed)+len(signed); i++ {
 		r := c.rng.Fork()
 		var dj *c10DirJob
-		if i >= nconf {
+		var sj *c10SignedJob
+		if i >= nconf+len(directed) {
+			sj = &signed[i-nconf-len(directed)]
+		} else if i >= nconf {
 			dj = &directed[i-nconf]
 		}
 		n := 2 + i%4
@@ -761,7 +863,20 @@ func runC10(c *Ctx) error {
 			n = 2
 		}
 		var cc *c10Circ
-		if dj != nil {
+		if sj != nil {
+			n = sj.n
+			params := utils.NewParams()
+			params.Target = utils.TargetGMW
+			params.Warn.DisableAll()
+			var sc *circuit.Circuit
+			var err error
+			msg := c10Try(func() { sc, _, err = compiler.New(params).Compile(sj.src, nil) })
+			params.Close()
+			if msg != "" || err != nil || sc == nil || len(sc.Inputs) != n {
+				return fmt.Errorf("signed program does not compile: %v %s\n%s", err, msg, sj.src)
+			}
+			cc = &c10Circ{kind: "mpcl-signed", src: sj.src, circ: sc}
+		} else if dj != nil {
 			n = dj.n
 			cc = c10Levelled(r, n, dj.levels, true)
 		} else {
@@ -794,7 +909,19 @@ func runC10(c *Ctx) error {
 					v.SetBit(v, b, 1)
 				}
 			}
+			// half of the time the NEGATIVE big.Int with the same low bits:
+			// Run reads inputs through Bit(i), it must behave identically
+			if r.Bool() {
+				v = negRep(v, sizes[p])
+			}
 			inputs[p] = v
+			if sj != nil {
+				pv, perr := circ.Inputs[p].Parse([]string{sj.args[p]})
+				if perr != nil {
+					return fmt.Errorf("signed program: Parse(%q): %v", sj.args[p], perr)
+				}
+				inputs[p] = pv
+			}
 		}
 		inStr := make([]string, n)
 		var flat []bool
@@ -807,6 +934,13 @@ func runC10(c *Ctx) error {
 			return fmt.Errorf("case %d: Compute: %v", i, cerr)
 		}
 		wantBits := JoinOutputs(circ, want)
+		if wp, perr := circ.Compute(c10PatternInputs(circ, inputs)); perr != nil || bitsString(JoinOutputs(circ, wp)) != bitsString(wantBits) {
+			c.Fail("c10:Compute:negative-big-int-differs-from-bit-pattern", "Circuit.Compute on a negative big.Int differs from Compute on its two's complement bit pattern",
+				c10Replay{Seed: c.Seed, Case: i, Parties: n, Kind: cc.kind, Source: cc.src, Inputs: inStr})
+		}
+		if _, neg := c10AbsInputs(inputs); neg {
+			c.Hist("inputs:some-negative-big-int")
+		}
 		if bitsString(wantBits) != bitsString(TruthEval(circ, flat)) {
 			c.Fail("c10:Compute-differs-from-truth-table", "Circuit.Compute differs from gate-by-gate evaluation",
 				c10Replay{Seed: c.Seed, Case: i, Parties: n, Kind: cc.kind, Source: cc.src, Inputs: inStr})
@@ -947,6 +1081,10 @@ func runC10(c *Ctx) error {
 						}
 					}
 				}
+				key = c10NegKey(circ, inputs, gotStr, key)
+				if key == "c10:input:negative-big-int:wrong-output" {
+					rp.Detail += "; inputs are hex big.Ints, negative ones as -|x|; every party's output equals Circuit.Compute on the ABSOLUTE values of the negative inputs"
+				}
 				c.Fail(key, "a party's GMW output differs from Circuit.Compute", rp)
 			}
 		}
@@ -985,8 +1123,8 @@ func runC10(c *Ctx) error {
 			}
 		}
 
-		if dj != nil {
-			continue // directed batch-size circuits: online run only
+		if dj != nil || sj != nil {
+			continue // directed batch-size circuits and signed programs: online run only
 		}
 
 		// ------------------------------------------------ drain run
@@ -1505,6 +1643,9 @@ func c10Reuse(c *Ctx, timeout time.Duration) error {
 						v.SetBit(v, b, 1)
 					}
 				}
+				if r.Bool() {
+					v = negRep(v, sizes[p])
+				}
 				inputs[p] = v
 				insx[p] = Bits(c10BitsOf(v, sizes[p]))
 				strs[p] = v.Text(16)
@@ -1617,7 +1758,14 @@ func c10Reuse(c *Ctx, timeout time.Duration) error {
 				}
 				rp.Want = strings.Join(wv, ",")
 				rp.Detail = "result values (hex, one per output argument) of every party vs Circuit.Compute"
-				c.Fail(fmt.Sprintf("c10:network-reuse:run%d:wrong-output", k), "a party's result of a later Run on the same network differs from Circuit.Compute", rp)
+				var gb []string
+				for p := 0; p < n; p++ {
+					if len(res[p].outs[k]) == len(runs[k].circ.Outputs) {
+						gb = append(gb, bitsString(JoinOutputs(runs[k].circ, res[p].outs[k])))
+					}
+				}
+				key := c10NegKey(runs[k].circ, runs[k].inputs, gb, fmt.Sprintf("c10:network-reuse:run%d:wrong-output", k))
+				c.Fail(key, "a party's result of a Run on a reused network differs from Circuit.Compute", rp)
 				break
 			}
 		}
